@@ -3,6 +3,7 @@ package main
 import (
 	"fmt"
 	"go/ast"
+	"go/token"
 	"go/types"
 	"strings"
 )
@@ -72,7 +73,7 @@ func (u *Unit) builtinModel(st *State, call *ast.CallExpr, fn *types.Func, key s
 		}
 	case "sync/atomic":
 		if recv != nil {
-			return u.atomicOp(st, fn, recv, args)
+			return u.atomicOp(st, fn, recv, args, call.Pos())
 		}
 	case "time":
 		switch key {
@@ -154,7 +155,7 @@ func (u *Unit) builtinModel(st *State, call *ast.CallExpr, fn *types.Func, key s
 
 // ---- atomics ----
 
-func (u *Unit) atomicOp(st *State, fn *types.Func, recv *Val, args []Val) (Val, bool) {
+func (u *Unit) atomicOp(st *State, fn *types.Func, recv *Val, args []Val, pos token.Pos) (Val, bool) {
 	sig := fn.Type().(*types.Signature)
 	rt := recv.T
 	if p, ok := rt.Underlying().(*types.Pointer); ok {
@@ -188,8 +189,22 @@ func (u *Unit) atomicOp(st *State, fn *types.Func, recv *Val, args []Val) (Val, 
 	set := func(v Term) {
 		u.logWrite(st, heap, recv.S)
 		u.setHeap(st, heap, hs, tStore(u.heapTerm(st, heap, hs), recv.S, v))
+		// declared invariant of a shared atomic: every value this function writes must satisfy it
+		if r := u.root(); r.contract != nil && r.contract.Flags["shared_atomics"] != "" {
+			if inv := r.contract.Flags["atomic_inv"]; inv != "" {
+				if e, err := parseSpecExpr(inv); err == nil {
+					env := u.invEnv(st, pos)
+					env.vars["v"] = scalar(v, sort, nil)
+					if t, err := u.specBool(env, Clause{Text: inv, Expr: e, Where: r.contract.Where}); err == nil {
+						u.oblige(st, "atomic-inv", fn.Name()+"@"+u.seqLabel("atomic-inv", pos), t, pos)
+					} else {
+						u.reject("contract error: %v", err)
+					}
+				}
+			}
+		}
 	}
-	u.atomicInterference(st, heap, hs, recv)
+	u.atomicInterference(st, heap, hs, recv, pos)
 	res := func(t Term) Val {
 		if sig.Results().Len() == 0 {
 			return Val{Kind: KTuple}
@@ -227,7 +242,7 @@ func (u *Unit) atomicOp(st *State, fn *types.Func, recv *Val, args []Val) (Val, 
 
 // atomicInterference: if the atomic field is declared shared (`flag shared_atomics`), other goroutines may have
 // changed it since this function last looked: havoc it (under its declared invariant, if any) before every operation.
-func (u *Unit) atomicInterference(st *State, heap, hs string, recv *Val) {
+func (u *Unit) atomicInterference(st *State, heap, hs string, recv *Val, pos token.Pos) {
 	r := u.root()
 	if r.contract == nil || r.contract.Flags["shared_atomics"] == "" {
 		return
@@ -237,7 +252,7 @@ func (u *Unit) atomicInterference(st *State, heap, hs string, recv *Val) {
 	if inv := r.contract.Flags["atomic_inv"]; inv != "" {
 		e, err := parseSpecExpr(inv)
 		if err == nil {
-			env := u.invEnv(st, 0)
+			env := u.invEnv(st, pos)
 			env.vars["v"] = scalar(nv, arrayElemSort(hs), nil)
 			if t, err := u.specBool(env, Clause{Text: inv, Expr: e, Where: r.contract.Where}); err == nil {
 				st.assume(t)
